@@ -294,11 +294,12 @@ def EFib.coordToHandle (F : EFib) (q : Int) : Option Nat :=
   | .B => some q.toNat
 
 /-- `handleToPayload`: the base class returns the handle if it is inside the payload list;
-    `CoordinateList` returns `occupancy_so_far` when the rank below is U, else the handle -/
+    `CoordinateList` returns the handle, or — above a U rank, where no payloads are stored —
+    `occupancy_so_far + handle`, the position of the element's fiber in the next rank -/
 def EFib.handleToPayload (F : EFib) (h : Nat) : Option Nat :=
   match F.fmt with
   | .C => match F.next with
-          | some g => if g.explicit then some h else some F.osf
+          | some g => if g.explicit then some h else some (F.osf + h)
           | none => some h
   | _ => if h ≥ F.npay then none else some h
 
@@ -333,12 +334,12 @@ def EFib.scan (F : EFib) : List (Option Int × Option Nat) :=
           | none => []
   | .B => scanBits F F.coords 0 0
 
-/-- `getSize()`; `none` = an `assert` fires -/
+/-- `getSize()`; `none` = an `assert` fires (CoordinateList checks one payload per coordinate
+    when the rank below is explicit) -/
 def EFib.getSize (F : EFib) : Option Nat :=
   match F.fmt with
-  | .U => if F.npay = 0 then none
-          else some (F.occs.length + (if F.isLeaf then F.npay else 0))
-  | .C => if (match F.next with | some g => g.explicit | none => false) && F.npay = 0 then none
+  | .U => some (F.occs.length + (if F.isLeaf then F.npay else 0))
+  | .C => if (match F.next with | some g => g.explicit | none => false) && F.npay != F.coords.length then none
           else some (F.coords.length + F.occs.length + F.npay)
   | .B => some ((F.coords.length + 31) / 32 + F.occs.length +
                 (match F.next with
@@ -363,11 +364,6 @@ def EFib.words (F : EFib) : Nat :=
                 | _ => if lowerExplicit then F.n else 0
   coordWords + occEntries + payEntries
 
-/-- the class in which `getSize` raises instead of answering: a fiber without elements that is
-    U, or C above an explicit rank -/
-def EFib.sizeAsserts (F : EFib) : Bool :=
-  decide (F.n = 0) && (F.fmt == .U || (F.fmt == .C && (match F.next with | some g => g.explicit | none => false)))
-
 /-- the layout coordinates of a fiber: what a scan has to deliver, in order -/
 def EFib.layoutCoords (F : EFib) : List Int :=
   match F.fmt with
@@ -375,9 +371,14 @@ def EFib.layoutCoords (F : EFib) : List Int :=
   | .C => F.coords
   | .B => maskCoords F.coords
 
-/-- expected scan: the k-th layout coordinate with payload handle k -/
+/-- where the payload handles of a fiber start: 0 (positions in the fiber's own payload list),
+    except for C above U, whose payloads are positions in the next rank -/
+def EFib.payBase (F : EFib) : Nat :=
+  if F.fmt = .C ∧ F.next = some .U then F.osf else 0
+
+/-- expected scan: the k-th layout coordinate with payload handle `payBase + k` -/
 def EFib.scanSpec (F : EFib) : List (Option Int × Option Nat) :=
-  F.layoutCoords.zipIdx.map (fun e => (some e.1, some e.2))
+  F.layoutCoords.zipIdx.map (fun e => (some e.1, some (F.payBase + e.2)))
 
 /-- lower bound as an optional handle: the first stored coordinate not below the query -/
 def lowerHandle (cs : List Int) (q : Int) : Option Nat :=
